@@ -222,7 +222,7 @@ pub fn replay(case: &Value) -> Vec<Violation> {
             transform_case(n, rich, zod, t).0
         }
         // the whole CLI case again: with the hash seeds owned it is deterministic
-        "cli" => cli_case(n, zod, case["hash_seed"].as_u64().map(|k| k + 1).unwrap_or(16)).0,
+        "cli" => cli_case(n, zod, case["hash_seed"].as_u64().map(|k| k + 1).unwrap_or(16), case["mapped"].as_bool().unwrap_or(false)).0,
         _ => vec![],
     }
 }
@@ -277,13 +277,20 @@ fn transform_case(n: usize, rich: bool, zod: bool, t: Transform) -> (Vec<Violati
 
 /// CLI seam: verbosity and visualisation must not change the binding files; repeated fresh
 /// processes (no schedule control) must agree.
-fn cli_case(n: usize, zod: bool, seeds: u64) -> (Vec<Violation>, u64) {
-    let p = base_project(n, true).render();
+fn cli_case(n: usize, zod: bool, seeds: u64, mapped: bool) -> (Vec<Violation>, u64) {
+    let mut p = base_project(n, true).render();
+    // with type mappings: several keys, two of them module-qualified spellings of one bare name
+    let mappings: Vec<(String, String)> = if mapped {
+        p.files[0].1.push_str("\n#[derive(Serialize, Deserialize)]\npub struct Span { pub took: Duration, pub id: Uuid, pub at: Option<Stamp> }\n#[tauri::command]\npub fn span_of(id: Uuid) -> Span { todo!() }\n");
+        vec![("chrono::Duration".into(), "number".into()), ("std::time::Duration".into(), "{ secs: number; nanos: number }".into()), ("Uuid".into(), "string".into()), ("Stamp".into(), "number".into())]
+    } else {
+        vec![]
+    };
     let mut vs = vec![];
     let mut runs = 0u64;
     let gen_seeded = |verbose: bool, visualize: bool, schedule: Option<String>, hash_seed: Option<u64>| -> Option<BTreeMap<String, String>> {
         let sb = run::Sandbox::new();
-        let cfg = FileCfg { zod, visualize_deps: visualize, ..Default::default() };
+        let cfg = FileCfg { zod, visualize_deps: visualize, type_mappings: mappings.clone(), ..Default::default() };
         sbx::write_sources(&sb.root, &p, &cfg);
         let mut opts = RunOpts { schedule_env: schedule, hash_seed, ..Default::default() };
         if verbose {
@@ -298,7 +305,7 @@ fn cli_case(n: usize, zod: bool, seeds: u64) -> (Vec<Violation>, u64) {
         Some(m)
     };
     let gen = |verbose: bool, visualize: bool, schedule: Option<String>| gen_seeded(verbose, visualize, schedule, None);
-    let fields = [("seam", "cli".to_string()), ("files", n.to_string()), ("mode", if zod { "zod".to_string() } else { "none".to_string() })];
+    let fields = [("seam", if mapped { "cli+mappings".to_string() } else { "cli".to_string() }), ("files", n.to_string()), ("mode", if zod { "zod".to_string() } else { "none".to_string() })];
     let base = gen(false, false, None);
     runs += 1;
     let Some(base) = base else { return (vs, runs) };
@@ -308,14 +315,14 @@ fn cli_case(n: usize, zod: bool, seeds: u64) -> (Vec<Violation>, u64) {
             let graph_txt = o.remove("dependency-graph.txt");
             let graph_dot = o.remove("dependency-graph.dot");
             if visualize && (graph_txt.is_none() || graph_dot.is_none()) {
-                vs.push(mk("visualisation-missing", &fields, "visualize_deps set but the graph files were not written".into(), json!({"kind":"cli","n_files":n,"zod":zod}), n as u64));
+                vs.push(mk("visualisation-missing", &fields, "visualize_deps set but the graph files were not written".into(), json!({"kind":"cli","n_files":n,"zod":zod,"mapped":mapped}), n as u64));
             }
             if o != base {
                 vs.push(mk(
                     "flag-changes-output",
                     &[fields[0].clone(), fields[1].clone(), fields[2].clone(), ("flag", format!("verbose={} visualize={}", verbose, visualize))],
                     first_diff(&base, &o),
-                    json!({"kind":"cli","n_files":n,"zod":zod}),
+                    json!({"kind":"cli","n_files":n,"zod":zod,"mapped":mapped}),
                     n as u64,
                 ));
             }
@@ -336,7 +343,7 @@ fn cli_case(n: usize, zod: bool, seeds: u64) -> (Vec<Violation>, u64) {
                         "process-dependent-output",
                         &fields,
                         format!("hash seed {} differs from the seeds before it: {}", k, first_diff(p, &o)),
-                        json!({"kind":"cli","n_files":n,"zod":zod,"hash_seed":k}),
+                        json!({"kind":"cli","n_files":n,"zod":zod,"hash_seed":k,"mapped":mapped}),
                         n as u64,
                     ));
                     break;
@@ -453,7 +460,7 @@ pub fn run(tier: Tier) -> CheckResult {
     }
     // CLI seam
     let ccases: Vec<(usize, bool)> = (1..=3).flat_map(|n| [(n, false), (n, true)]).collect();
-    let cres: Vec<(Vec<Violation>, u64)> = ccases.par_iter().map(|(n, z)| cli_case(*n, *z, if tier == Tier::Quick { 16 } else { 64 })).collect();
+    let cres: Vec<(Vec<Violation>, u64)> = ccases.par_iter().flat_map(|(n, z)| [(*n, *z, false), (*n, *z, true)]).map(|(n, z, m)| cli_case(n, z, if tier == Tier::Quick { 16 } else { 64 }, m)).collect();
     let mut cli_runs = 0;
     for (v, e) in cres {
         cli_runs += e;
@@ -490,7 +497,7 @@ pub fn run(tier: Tier) -> CheckResult {
         {"kind":"transform","n_files":3,"zod":false,"transform":"MoveTypes"},
         {"kind":"cli","n_files":2,"zod":true,"flags":"--verbose + visualize_deps"}
     ]));
-    res.coverage.set("rule", format!("projects of 2..{} files (file i: struct T_i depending on T_i+1 through Option and HashMap<String, Vec<..>>, enum K_i, 1-2 commands, a channel, an event); for each project and mode every iteration-order schedule at hook sites S1 (files), S4 (plain struct order), S5/S6 (topological sort): full product for <= 3 (thorough: 4) files, deviation bound {} beyond; oracle: all files byte-identical to the identity schedule's output modulo the timestamp line; identity schedule run twice (replay divergence). Transformations (comments/whitespace, helper fns, non-serde items: output identical; reorder items, move types between files, merge, split, rename files: identical multiset of parsed top-level declarations per file and, in Zod mode, still declaration-before-use). CLI seam: --verbose and visualize_deps leave the binding files identical (the latter adds exactly its two files); one process per hash seed 0..16 (quick) / 0..64 (thorough) - the preloaded getrandom shim makes every hash iteration order of the process a function of the seed - incl. reversed file order, must agree on every file incl. the dependency graphs.", max_files, if tier == Tier::Quick { 2 } else { 3 }));
+    res.coverage.set("rule", format!("projects of 2..{} files (file i: struct T_i depending on T_i+1 through Option and HashMap<String, Vec<..>>, enum K_i, 1-2 commands, a channel, an event); for each project and mode every iteration-order schedule at hook sites S1 (files), S4 (plain struct order), S5/S6 (topological sort): full product for <= 3 (thorough: 4) files, deviation bound {} beyond; oracle: all files byte-identical to the identity schedule's output modulo the timestamp line; identity schedule run twice (replay divergence). Transformations (comments/whitespace, helper fns, non-serde items: output identical; reorder items, move types between files, merge, split, rename files: identical multiset of parsed top-level declarations per file and, in Zod mode, still declaration-before-use). CLI seam: --verbose and visualize_deps leave the binding files identical (the latter adds exactly its two files); one process per hash seed 0..16 (quick) / 0..64 (thorough) - the preloaded getrandom shim makes every hash iteration order of the process a function of the seed - incl. reversed file order, must agree on every file incl. the dependency graphs; the same again with four type mappings in the configuration, two of them module-qualified spellings of one bare name.", max_files, if tier == Tier::Quick { 2 } else { 3 }));
     res.assumptions = vec!["hash iterations not behind a hook site are covered by the enumerated hash seeds of the process (a seed alphabet, deterministic and replayable, not a complete order product) and by fresh analyser instances in process".into()];
     let _ = gen::PRELUDE;
     res
